@@ -687,7 +687,11 @@ func Delete(ctx context.Context, scope *ReferenceScope, query parser.DeleteQuery
 		if err = v.RestoreHeaderReferences(); err != nil {
 			return nil, nil, err
 		}
+	}
 
+	// The tables are published only after all of them have been prepared: a statement that is cancelled or fails
+	// above leaves every table as it was.
+	for k, v := range viewsToDelete {
 		if v.FileInfo.IsInMemoryTable() {
 			scope.ReplaceTemporaryTable(v)
 		} else if v.FileInfo.IsFile() {
